@@ -1,5 +1,7 @@
 package eng
 
+import "fmt"
+
 // Quantifier support for obligations: universally quantified goals are skolemised, and universally quantified
 // hypotheses are additionally instantiated at the skolem constants (and at the index terms that occur in the goal).
 // Both steps preserve validity of  Hyp ==> Goal  in the direction we need: the transformed formula implies the original.
@@ -241,6 +243,287 @@ func nlFacts(ts ...*Term) *Term {
 	}
 	for _, t := range ts {
 		walk(t)
+	}
+	return And(out...)
+}
+
+// ---------- trigger-based instantiation of quantified hypotheses ----------
+//
+// A universally quantified hypothesis whose body reads arrays at its bound variables (select(select(X, a), d) ...)
+// is instantiated at every index tuple at which an array of the same sort is read in the ground part of the query
+// (one round of eager E-matching, repeated a few times because instances create new reads). Instances are consequences
+// of the hypothesis, so adding them is sound; groundOnly then drops what remains quantified (weaker hypotheses:
+// unsat is still a proof).
+
+type selKey struct {
+	s *Sort
+	k int
+}
+
+func containsAny(t *Term, set map[*Term]bool, memo map[*Term]bool) bool {
+	if len(set) == 0 {
+		return false
+	}
+	if v, ok := memo[t]; ok {
+		return v
+	}
+	r := set[t]
+	if !r {
+		for _, a := range t.Args {
+			if containsAny(a, set, memo) {
+				r = true
+				break
+			}
+		}
+	}
+	memo[t] = r
+	return r
+}
+
+// chainOf returns head and indices of a maximal select chain rooted at t (t.Op == "select").
+func chainOf(t *Term) (*Term, []*Term) {
+	var idx []*Term
+	for t.Op == "select" {
+		idx = append([]*Term{t.Args[1]}, idx...)
+		t = t.Args[0]
+	}
+	return t, idx
+}
+
+func collectTuples(t *Term, out map[selKey][][]*Term, seen map[*Term]bool, dedupe map[selKey]map[string]bool) {
+	if seen[t] {
+		return
+	}
+	seen[t] = true
+	if t.Op == "forall" || t.Op == "exists" {
+		return
+	}
+	if t.Op == "select" {
+		head, idx := chainOf(t)
+		// all contiguous sub-chains
+		s := head.S
+		for p := 0; p < len(idx); p++ {
+			ss := s
+			for k := 1; p+k <= len(idx); k++ {
+				key := selKey{s, k}
+				tup := idx[p : p+k]
+				sig := ""
+				for _, x := range tup {
+					sig += fmt.Sprintf("%d,", x.ID)
+				}
+				if dedupe[key] == nil {
+					dedupe[key] = map[string]bool{}
+				}
+				if !dedupe[key][sig] {
+					dedupe[key][sig] = true
+					out[key] = append(out[key], tup)
+				}
+				ss = ss.Elem
+				if ss == nil || ss.Kind != "Array" {
+					break
+				}
+			}
+			if s.Kind != "Array" {
+				break
+			}
+			s = s.Elem
+		}
+	}
+	for _, a := range t.Args {
+		collectTuples(a, out, seen, dedupe)
+	}
+}
+
+// patternsOf finds select chains in the body of a forall whose indices are exactly its bound variables (in some order).
+func patternsOf(q *Term) (pats [][2]interface{}) {
+	bset := map[*Term]bool{}
+	for _, b := range q.Bound {
+		bset[b] = true
+	}
+	memo := map[*Term]bool{}
+	seen := map[*Term]bool{}
+	var walk func(t *Term)
+	walk = func(t *Term) {
+		if seen[t] {
+			return
+		}
+		seen[t] = true
+		if t.Op == "select" {
+			head, idx := chainOf(t)
+			// look for a contiguous run of distinct bound variables covering all of them, with a bound-free prefix
+			for p := 0; p+len(q.Bound) <= len(idx); p++ {
+				run := idx[p : p+len(q.Bound)]
+				ok := true
+				used := map[*Term]bool{}
+				for _, x := range run {
+					if !bset[x] || used[x] {
+						ok = false
+						break
+					}
+					used[x] = true
+				}
+				if !ok {
+					continue
+				}
+				pre := head
+				for _, x := range idx[:p] {
+					pre = Select(pre, x)
+				}
+				if containsAny(pre, bset, memo) {
+					continue
+				}
+				pats = append(pats, [2]interface{}{pre.S, append([]*Term{}, run...)})
+			}
+		}
+		for _, a := range t.Args {
+			walk(a)
+		}
+	}
+	walk(q.Args[0])
+	return
+}
+
+type instState struct {
+	done map[*Term]map[string]bool
+	n    int
+}
+
+func (st *instState) instantiate(t *Term, asserted bool, tuples map[selKey][][]*Term) *Term {
+	pos := !asserted
+	switch t.Op {
+	case "and", "or":
+		args := make([]*Term, len(t.Args))
+		ch := false
+		for i, a := range t.Args {
+			args[i] = st.instantiate(a, pos, tuples)
+			if args[i] != a {
+				ch = true
+			}
+		}
+		if !ch {
+			return t
+		}
+		if t.Op == "and" {
+			return And(args...)
+		}
+		return Or(args...)
+	case "not":
+		a := st.instantiate(t.Args[0], !pos, tuples)
+		if a == t.Args[0] {
+			return t
+		}
+		return Not(a)
+	case "forall":
+		if pos || len(t.Bound) > 3 {
+			return t
+		}
+		if st.done[t] == nil {
+			st.done[t] = map[string]bool{}
+		}
+		out := []*Term{t}
+		for _, p := range patternsOf(t) {
+			s := p[0].(*Sort)
+			run := p[1].([]*Term)
+			for _, tup := range tuples[selKey{s, len(run)}] {
+				if st.n > 400 {
+					break
+				}
+				sig := ""
+				m := map[*Term]*Term{}
+				for i, b := range run {
+					m[b] = tup[i]
+				}
+				for _, b := range t.Bound {
+					sig += fmt.Sprintf("%d,", m[b].ID)
+				}
+				if st.done[t][sig] {
+					continue
+				}
+				st.done[t][sig] = true
+				st.n++
+				out = append(out, Subst(t.Args[0], m))
+			}
+		}
+		if len(out) == 1 {
+			return t
+		}
+		return And(out...)
+	}
+	return t
+}
+
+// triggerInstantiate adds ground instances of the universally quantified subformulas that occur asserted
+// (positive polarity) in the query formula f = hyp && !goal (three rounds).
+func triggerInstantiate(f *Term) *Term {
+	if !hasQuant(f) {
+		return f
+	}
+	st := &instState{done: map[*Term]map[string]bool{}}
+	for round := 0; round < 3; round++ {
+		tuples := map[selKey][][]*Term{}
+		collectTuples(f, tuples, map[*Term]bool{}, map[selKey]map[string]bool{})
+		nf := st.instantiate(f, true, tuples)
+		if nf == f {
+			break
+		}
+		f = nf
+	}
+	return f
+}
+
+// dropQuantAsserted replaces every asserted universal quantifier of the query formula by true (weakening the
+// query: unsat of the result is still a proof of the obligation).
+func dropQuantAsserted(t *Term, asserted bool) *Term {
+	switch t.Op {
+	case "and", "or":
+		args := make([]*Term, len(t.Args))
+		for i, a := range t.Args {
+			args[i] = dropQuantAsserted(a, asserted)
+		}
+		if t.Op == "and" {
+			return And(args...)
+		}
+		return Or(args...)
+	case "not":
+		return Not(dropQuantAsserted(t.Args[0], !asserted))
+	case "forall":
+		if asserted {
+			return True
+		}
+	case "exists":
+		if !asserted {
+			return False
+		}
+	}
+	return t
+}
+
+// modaddrFacts: module accounts of distinct module names have distinct addresses (addresses are the first 20 bytes of
+// SHA-256 of the name; no collision among the chain's module names). Ground facts for the modaddr terms of the query.
+func modaddrFacts(f *Term) *Term {
+	seen := map[*Term]bool{}
+	var mods []*Term
+	var walk func(t *Term)
+	walk = func(t *Term) {
+		if seen[t] {
+			return
+		}
+		seen[t] = true
+		if t.Op == "uf" && t.Name == "modaddr" && len(t.Args) == 1 && t.Args[0].IsInt() {
+			mods = append(mods, t)
+		}
+		for _, a := range t.Args {
+			walk(a)
+		}
+	}
+	walk(f)
+	var out []*Term
+	for i := 0; i < len(mods); i++ {
+		for j := i + 1; j < len(mods); j++ {
+			if mods[i].Args[0].Val.Cmp(mods[j].Args[0].Val) != 0 {
+				out = append(out, Not(Eq(mods[i], mods[j])))
+			}
+		}
 	}
 	return And(out...)
 }
